@@ -299,20 +299,6 @@ theorem oer_read_bytes_refines (d : oer_DecoderS) (h : ODecInv d) (bs : Bytes) (
   · rw [if_neg hn] at this ⊢
     rw [this]; exact .inl rfl
 
-theorem band128_zero {c : Nat} (h2 : c < 128) : Py.band (c : Int) 128 = 0 := by
-  have h3 : c &&& 2 ^ 7 = 0 := by
-    rw [Py.and_two_pow_eq_zero_of_lt (by omega)]; omega
-  rw [show (128 : Int) = ((128 : Nat) : Int) from rfl, Py.band_natCast]
-  show ((c &&& 2 ^ 7 : Nat) : Int) = 0
-  rw [h3]; rfl
-
-theorem band128_nonzero {c : Nat} (h1 : 128 ≤ c) (h2 : c < 256) : Py.band (c : Int) 128 ≠ 0 := by
-  have h3 : ¬ (c &&& 2 ^ 7 = 0) := by
-    rw [Py.and_two_pow_eq_zero_of_lt (by omega)]; omega
-  rw [show (128 : Int) = ((128 : Nat) : Int) from rfl, Py.band_natCast]
-  show ((c &&& 2 ^ 7 : Nat) : Int) ≠ 0
-  omega
-
 theorem oer_read_length_determinant_refines (d : oer_DecoderS) (h : ODecInv d) (bs : Bytes) (ha : oAt d bs) :
     ORefines natVal (oer_Decoder_read_length_determinant d) (Oer.readLenDet bs) := by
   unfold oer_Decoder_read_length_determinant Oer.readLenDet
